@@ -1,7 +1,8 @@
 """Contracts for formula evaluation timing (C06): every emitted sample uses inputs of one timestamp."""
+import math
 from datetime import timedelta
 
-from pyvc.spec import (contract, Obj, Rec, Opt, ExtObj, DictOpt, FixedList, Time, Int, Real, Bool, Qty, OpaqueT, Const,
+from pyvc.spec import (contract, Obj, Rec, Opt, ExtObj, DictOpt, FixedList, Time, Int, Real, Bool, Qty, OpaqueT, Const, Float,
                        implies, forall)
 
 EV = "frequenz.sdk.timeseries.formula_engine._formula_evaluator"
@@ -147,3 +148,32 @@ class ThreePhaseRun:
             phases_in_step="rx1.next_ts == rx2.next_ts and rx2.next_ts == rx3.next_ts",
         ))}
     ensures = dict(never_mixes_timestamps="sender.n_mixed == 0")
+
+
+# ------------------------------------------------------------------ C13: the evaluator's last step
+ConstStepFpT = Obj(f"{ST}:ConstantValue", _value=Float)
+EvaluatorFpT = Obj(f"{EV}:FormulaEvaluator", _name=OpaqueT("name"), _steps=FixedList(ConstStepFpT),
+                   _metric_fetchers=DictOpt({"a": FetcherT}, always=["a"]), _first_run=Bool,
+                   _create_method=ExtObj("create_method", methods={"__call__": dict(returns="made", effects={
+                       "n_calls": "self.n_calls + 1", "last_arg": "args[0]"})}, n_calls=Int, last_arg=Float))
+
+
+@contract(f"{EV}:FormulaEvaluator.apply", case="c13")
+class EvaluatorApplyNonFinite:
+    """C13: whatever the steps leave on the stack (any IEEE double, here produced by one constant step), a sample
+    is emitted for the timestamp; its value is None exactly when that number is NaN or +-infinity, otherwise it is
+    the quantity made from exactly that number."""
+    mode = "ieee"
+    self_shape = EvaluatorFpT
+    result = SampleT
+    ghost = dict(made=Qty("Power"))
+    modifies = ["self._metric_fetchers", "self._first_run", "self._create_method"]
+    inline = [f"{EV}:FormulaEvaluator._synchronize_metric_timestamps", f"{ST}:ConstantValue.apply"]
+    raises = dict(RuntimeError="False")
+    requires = dict(fresh="self._create_method.n_calls == 0")
+    ensures = dict(
+        none_iff_not_finite="(result.value is None) == (math.isnan(self._steps[0]._value) or math.isinf(self._steps[0]._value))",
+        otherwise_made_from_the_result="implies(result.value is not None, self._create_method.n_calls == 1"
+                                       " and self._create_method.last_arg == self._steps[0]._value)",
+        stamped_with_the_input_timestamp="result.timestamp == self._metric_fetchers['a'].last_ts",
+    )
